@@ -66,6 +66,7 @@ type sim struct {
 	fired    bool // the timer of the current generation has (virtually) expired
 	closedCh <-chan struct{}
 	maxOut   int
+	held     []<-chan struct{} // Done channels handed out while open: what a waiter that called Done() earlier holds
 }
 
 func newSim() *sim {
@@ -91,6 +92,9 @@ var past = time.Now().Add(-time.Hour)
 func (s *sim) applyRaw(st int) (bool, string, string) {
 	prevClosed := isClosed(s.d.Done())
 	prevCh := s.d.Done()
+	if !prevClosed && (len(s.held) == 0 || s.held[len(s.held)-1] != prevCh) {
+		s.held = append(s.held, prevCh)
+	}
 	switch st {
 	case sZero, sPast, sFutA, sFutB:
 		t := time.Time{}
@@ -150,6 +154,15 @@ func (s *sim) applyRaw(st int) (bool, string, string) {
 	}
 	if (s.last == sFutA || s.last == sFutB) && s.fired && len(s.out) == 0 && !closed {
 		return true, "deadline:expiry-lost", "the latest timer expired and every dispatched callback has run, but Done is still open"
+	}
+	if closed {
+		// the deadline has expired: every waiter that obtained Done() since the previous expiry must be released
+		for _, ch := range s.held {
+			if !isClosed(ch) {
+				return true, "deadline:waiter-orphaned", "the deadline has expired (Done() is closed) but a Done channel handed out earlier, while the deadline had not expired, is still open: a waiter holding it is never released"
+			}
+		}
+		s.held = s.held[:0]
 	}
 	if (s.d.Err() != nil) != closed {
 		return true, "deadline:err-mismatch", fmt.Sprintf("Err()=%v while Done closed=%v", s.d.Err(), closed)
